@@ -1,6 +1,9 @@
 package scanner
 
-import "strings"
+import (
+	"bytes"
+	"strings"
+)
 
 func hexRuneValue(r rune) rune {
 	if r >= '0' && r <= '9' {
@@ -71,50 +74,40 @@ func (s *Scanner) consumeStringValue() string {
 	isEscaped := false
 	for !terminated && !s.isDone() {
 		if isEscaped {
-			if isBlock {
-				if r := s.consumeRune(); r == '"' && s.nextRune == '"' && s.peek() == '"' {
-					s.consumeRune()
-					s.consumeRune()
-					value += `"""`
-				} else {
-					value += string(`\`) + string(r)
-				}
-			} else {
-				consumed := false
-				switch s.nextRune {
-				case '"', '\\', '/':
-					value += string(s.nextRune)
-				case 'b':
-					value += string('\b')
-				case 'f':
-					value += string('\f')
-				case 'n':
-					value += string('\n')
-				case 'r':
-					value += string('\r')
-				case 't':
-					value += string('\t')
-				case 'u':
-					s.consumeRune()
-					consumed = true
+			consumed := false
+			switch s.nextRune {
+			case '"', '\\', '/':
+				value += string(s.nextRune)
+			case 'b':
+				value += string('\b')
+			case 'f':
+				value += string('\f')
+			case 'n':
+				value += string('\n')
+			case 'r':
+				value += string('\r')
+			case 't':
+				value += string('\t')
+			case 'u':
+				s.consumeRune()
+				consumed = true
 
-					var code rune
-					for i := 0; i < 4; i++ {
-						if v := hexRuneValue(s.nextRune); v < 0 {
-							s.errorf("illegal unicode escape sequence")
-							break
-						} else {
-							code = (code << 4) | v
-							s.consumeRune()
-						}
+				var code rune
+				for i := 0; i < 4; i++ {
+					if v := hexRuneValue(s.nextRune); v < 0 {
+						s.errorf("illegal unicode escape sequence")
+						break
+					} else {
+						code = (code << 4) | v
+						s.consumeRune()
 					}
-					value += string(code)
-				default:
-					s.errorf("illegal escape sequence")
 				}
-				if !consumed {
-					s.consumeRune()
-				}
+				value += string(code)
+			default:
+				s.errorf("illegal escape sequence")
+			}
+			if !consumed {
+				s.consumeRune()
 			}
 			isEscaped = false
 			continue
@@ -130,7 +123,16 @@ func (s *Scanner) consumeStringValue() string {
 			}
 		} else if s.nextRune == '\\' {
 			s.consumeRune()
-			isEscaped = true
+			if !isBlock {
+				isEscaped = true
+			} else if bytes.HasPrefix(s.src[s.offset:], []byte(`"""`)) {
+				s.consumeRune()
+				s.consumeRune()
+				s.consumeRune()
+				value += `"""`
+			} else {
+				value += `\`
+			}
 		} else if s.nextRune == '"' {
 			s.consumeRune()
 			if isBlock {
